@@ -119,7 +119,18 @@ def schema_references(rep, cases, rnd, d, quick: bool) -> None:
                 pat = _re.compile(rb"^class " + s["name"].encode() + rb"[:(]", _re.M)
                 defs = [p for p, b in snap.items() if p.endswith(".py") and isinstance(b, bytes) and pat.search(b)]
                 if len(defs) != 1:
-                    rep.violate("C20/class-not-shared", f"schema {s['name']} is defined in {len(defs)} modules: {defs}", adoc=c["doc"])
+                    # a verdict must be reproducible from its replay: the document is generated once more, alone and in this process, and judged again
+                    # (`vp check` once reported this key for a tree that no local run could reproduce - DESIGN.md 11.3)
+                    again = d / f"s{i:04d}-again"
+                    g2 = gen.generate(pipe.concretize(c["doc"]), again)
+                    snap2 = gen.snapshot(again, content=True)
+                    defs2 = [p for p, b in snap2.items() if p.endswith(".py") and isinstance(b, bytes) and pat.search(b)]
+                    if len(defs2) != 1:
+                        rep.violate("C20/class-not-shared", f"schema {s['name']} is defined in {len(defs2)} modules: {defs2}", adoc=c["doc"], first_pass=defs,
+                                    heads={p: snap2[p][:400].decode(errors="replace") for p in defs2[:3]}, diagnostics=g2["diags"][:3])
+                    else:
+                        rep.notes.append(f"class-not-shared not reproduced for {json.dumps(c['doc'])}: first pass {defs}, second pass {defs2}")
+                        rep.extra["unreproduced_verdicts"] = rep.extra.get("unreproduced_verdicts", 0) + 1
         for prob in treegen.relative_import_check(d / f"s{i:04d}")[:2]:
             rep.violate("C20/reference-to-missing-class", prob, adoc=c["doc"])
 
